@@ -84,6 +84,7 @@ type Conn struct {
 	// goroutines), arriving data goes to the call that was made last; the others keep waiting (a legal schedule)
 	HonourWriteDeadline bool
 	wdl                 time.Time
+	wdlSetAt            time.Time
 	NewestFirst         bool
 	parked              map[int]bool
 	OnWrite             func(k int, b []byte) WriteOutcome
@@ -292,8 +293,16 @@ func (c *Conn) SetReadDeadline(t time.Time) error {
 func (c *Conn) SetWriteDeadline(t time.Time) error {
 	c.mu.Lock()
 	c.wdl = t
+	c.wdlSetAt = time.Now()
 	c.mu.Unlock()
 	return nil
+}
+
+// LastWriteDeadlineSet: when SetWriteDeadline was last called
+func (c *Conn) LastWriteDeadlineSet() time.Time {
+	c.mu.Lock()
+	defer c.mu.Unlock()
+	return c.wdlSetAt
 }
 
 // ---- observation side
